@@ -91,6 +91,18 @@ def check_case(res, T, v, rng, bt=None, extra=None):
 def run_shard(shard, tier, seed):
     res = H.Result(ID)
     rng = C.rng_for(seed, ID, shard['shard'])
+    # contents as long as the values at which a length field grows by an octet (C03's family, below 2**24)
+    from . import c03
+    for j, (T, v) in enumerate(c03.length_boundary_cases('quick')):
+        if j % C.NSHARDS != shard['shard']:
+            continue
+        try:
+            check_case(res, T, v, rng)
+            res.see('length-boundary-cases')
+        except Exception:
+            res.see('harness:error')
+            if len(res.inconclusive) < 3:
+                res.inconclusive.append('harness error: ' + H.fmt_exc())
     for i in range(shard['n']):
         T, v = C.gen_case(rng, tier, big_strings=rng.random() < 0.15)
         try:
